@@ -148,6 +148,41 @@ func init() {
 			e.runIsolated("IX.total", fmt.Sprint(flags), hexE(u), hexE(l), fuzzTxDesc, fmt.Sprint(int(kind>>4)%4-1), "1000", fmt.Sprint(kind%16))
 		})
 	}
+	// FZ05: the fuzzer's corpus — the inputs that reached new coverage in the Go interpreter — replayed through the
+	// equivalence op, so that model and implementation are compared on one input per code path the search discovered
+	generators["FZ05"] = func(e *emitter, tier string, seed uint64) {
+		secs := fuzzSecs(tier)
+		if secs == 0 {
+			return
+		}
+		runFuzz(e, "FuzzExecute", secs, func(v []string) {})
+		out, err := exec.Command("go", "env", "GOCACHE").Output()
+		if err != nil {
+			return
+		}
+		files, _ := filepath.Glob(filepath.Join(strings.TrimSpace(string(out)), "fuzz", "verif", "harness", "FuzzExecute", "*"))
+		for _, p := range files {
+			v := parseFuzzFile(p)
+			if len(v) < 4 {
+				continue
+			}
+			u, l := litBytes(v[1]), litBytes(v[2])
+			if len(u) > 600 || len(l) > 600 {
+				continue
+			}
+			flags := fuzzNormFlags(litUint(v[0]), u, l)
+			kind := litUint(v[3])
+			idx := int(kind>>4)%4 - 1
+			switch {
+			case kind%16 == 0:
+				e.run("IX.exec", fmt.Sprint(flags), hexE(u), hexE(l), "-", "0", "0")
+				e.note("fuzz.corpus.scripts-only")
+			case kind%16 == 1 && (idx == 0 || idx == 1):
+				e.run("IX.exec", fmt.Sprint(flags), hexE(u), hexE(l), fuzzTxDesc, fmt.Sprint(idx), "1000")
+				e.note("fuzz.corpus.with-tx")
+			}
+		}
+	}
 	generators["FZ09"] = func(e *emitter, tier string, seed uint64) {
 		secs := fuzzSecs(tier)
 		if secs == 0 {
